@@ -177,6 +177,7 @@ def explore_config(case):
     numapi.check_composed(res, B, [e["p"] for e in sel][:14], [], case, "config", firsts=["inverse", "square"], seconds=["to_Matrix", "inverse", "param_g"])
     numapi.check_aliasing(res, B, [e["p"] for e in sel][:14], [], case, "config", ("inverse", "to_Matrix"))
     numapi.check_symbol_names(res, B, [e["p"] for e in sel][:6], [], case, "config", ("to_Matrix", "inverse", "product"))
+    numapi.check_history(res, B, [e["p"] for e in sel][:8], [], case, "config", ["to_Matrix", "inverse"], ["Ad", "log", "inverse", "to_Matrix"])
     numapi.check_threads(res, B, numapi.generic_pair([e["p"] for e in sel]), [], case, "config", ("to_Matrix", "inverse", "product"))
     if is_dp:
         gutil.check_product_by_position(res, B, [e["p"] for e in sel], [], case, "config", ("identity", "to_Matrix", "inverse", "product"))
